@@ -91,7 +91,7 @@ TestPlugin* TestPlugin::getNext()
 TestPlugin* TestPlugin::removePluginByName(const SimpleString& name)
 {
     TestPlugin* removed = NULLPTR;
-    if (next_ && next_->getName() == name) {
+    if (next_ && next_ != NullTestPlugin::instance() && next_->getName() == name) {
         removed = next_;
         next_ = next_->next_;
     }
